@@ -173,6 +173,18 @@ def run(case):
                     if not o.ok or o.value != [e[q] for q in sub]:
                         return "packed[%s][%s].unpack() gives %s, expected %s" % (short(pos, 60), short(sub, 60), repr(o) if not o.ok else short(o.value, 100), short([e[q] for q in sub], 100))
 
+        # runs of consecutive positions, selected from selections of selections: each level starts off a register boundary, the second where the
+        # first two offsets together reach into the next register
+        if per >= 2 and per + 4 <= L <= 3000:
+            for a1, a2, a3 in ((1, per - 1, 1), (per - 1, 1, 0), (per - 1, per - 1, 2), (1, 1, per)):
+                if a1 + a2 + a3 + 1 >= L:
+                    continue
+                e3 = vals[a1 + a2 + a3:]
+                CTX.tick("c13:nested-runs")
+                o = attempt(lambda: (lambda x1: (lambda x2: (lambda x3: (unp(x3.unpack()), int(x3[len(e3) - 1]), int(x3[0])))(x2[list(range(a3, L - a1 - a2))]))(x1[list(range(a2, L - a1))]))(ba[list(range(a1, L))]))
+                if not o.ok or o.value != (e3, e3[-1], e3[0]):
+                    return "packed[%d:][%d:][%d:] (three runs of consecutive positions) gives %s, expected %s" % (a1, a2, a3, repr(o) if not o.ok else short(o.value, 120), short(e3, 100))
+
     wcalls = [0]
 
     def obs_w():
